@@ -77,6 +77,7 @@ func init() {
 			h("cont.H_Hist", hist(1, 2, 2, 0, 2), hist(1, 3, 3, 1, 2), histCov, 0, histDesc),
 			h("cont.H_Hist", auxnil(hist(4, 2, 3, 0, 2)), auxnil(hist(4, 2, 4, 1, 2)), histCov, 0, histDesc+"; multi-output forms, with a symbolic mask of multi-return constructors whose second output is a nil pointer (a value like any other: stored once, handed out as such)"),
 			h("cont.H_Hist", with2(hist(3, 2, 3, 0, 1), "singleton_init", 1), with2(hist(3, 2, 4, 1, 2), "singleton_init", 1), histCov, 0, histDesc+"; initializer profile where a function without a service result may also be registered as a singleton: it runs exactly once, at Build, never again at scope creation"),
+			h("cont.H_Hist", with2(hist(0, 2, 3, 0, 1), "twin", 1), with2(hist(0, 2, 4, 1, 2), "twin", 1), append([]string{"twin_built"}, histCov...), 0, histDesc+"; twin=1: a second provider is built from the SAME collection and stays alive while the first is used, is swept itself, and is closed before a last sweep of the first: each provider has singleton instances of its own (one table of observed objects for both models), constructor counts are those of two Builds"),
 			h("cont.H_Instances", map[string]int{"order_schemes": 2}, map[string]int{"order_schemes": 4}, []string{"replaced", "resolved"}, 20, "2..3 values of ONE Go type registered as instances under symbolic identities (unkeyed, distinct names, members of one group), optionally one removed and replaced by a new value before Build; every identity resolved twice from the provider, a scope and a nested scope and injected into a scoped consumer (keyed fields and a group field): always exactly the value registered for it, group members in registration order, a removed value never again"),
 		}},
 		propertySpec{ID: "C02", Harnesses: []harnessSpec{
@@ -241,6 +242,18 @@ h("cont.H_OptionalFault", map[string]int{"rounds": 3, "order_schemes": 1}, map[s
 			h("cont.H_Dispose", with(dsp(0, 2, 4, 0, 1, 0, 1), "tree", 1), with(dsp(0, 2, 4, 1, 2, 0, 1), "tree", 1), dspCov, 0, dspDesc),
 		}},
 	)
+	sibDesc := "one identity that a multi-return constructor ALSO produces has a registration of its own, with its own lifetime - because that output was removed and registered again (Add(pair), Remove(*B), Add(newB)), or because the pair lives under a name next to an unnamed registration (Add(pair, Name(x)), Add(newA)); lifetimes of both symbolic; L symbolic resolutions over the provider and two scopes mixing requests for the pair's outputs and for the independent identity, then a sweep: every value comes from the constructor registered for its identity and follows that registration's lifetime rule (instances, constructor invocation counts), whatever the other constructor did in that scope before"
+	hsib := h("cont.H_ReplacedSibling", map[string]int{"L": 2, "order_schemes": 1}, map[string]int{"L": 4, "order_schemes": 2}, []string{"built", "history_done"}, 20, sibDesc)
+	htg := h("cont.H_TwoGroups", map[string]int{"order_schemes": 1}, map[string]int{"order_schemes": 2}, []string{"resolved"}, 20, "three registrations of ONE element type, each a member of value group g1 or g2 (symbolic) with a symbolic lifetime, so that members of different groups sit at equal positions; both groups resolved repeatedly in two scopes, directly (both orders) and through a scoped consumer with one field per group: each group holds exactly its own members in registration order, each built by its own constructor and following its own lifetime rule; constructor counts")
+	for i := range properties {
+		switch properties[i].ID {
+		case "C01", "C02", "C03", "C04":
+			properties[i].Harnesses = append(properties[i].Harnesses, hsib)
+			if properties[i].ID == "C02" || properties[i].ID == "C04" {
+				properties[i].Harnesses = append(properties[i].Harnesses, htg)
+			}
+		}
+	}
 	for i := range properties {
 		switch properties[i].ID {
 		case "C02", "C10", "C12", "C03", "C18":
